@@ -1,6 +1,7 @@
 package rules
 
 import (
+	"fmt"
 	"go/constant"
 	"go/token"
 	"go/types"
@@ -24,12 +25,21 @@ type replyLoop struct {
 	recvEdge  sx.Edge
 	ctxEdge   sx.Edge
 	hasCtx    bool
-	rVal      ssa.Value // the received response (Extract of the select)
+	rVal      ssa.Value // the received response (Extract of the primary select)
+	recvs     []recvPoint
 	ctxVal    ssa.Value // the context whose Done() is selected on
 	qfCalls   []*ssa.Call
 	qfResults int
 	replies   ssa.Value // the reply map handed to the quorum function
 	correct   bool      // correctable flavour (QF has 3 results)
+}
+
+// recvPoint is one select state that receives from the reply channel (a
+// blocking wait or a non-blocking poll).
+type recvPoint struct {
+	sel  *ssa.Select
+	edge sx.Edge
+	rVal ssa.Value
 }
 
 // isResponseChan reports whether t is a channel of gorums.response.
@@ -153,11 +163,18 @@ func findReplyLoops(l *core.Ledger, r *rt, rule string) []*replyLoop {
 		if len(qf) == 0 {
 			continue
 		}
-		if len(sels) != 1 {
-			l.Unknown(rule, fnKey(f)+"/select", f.Pos(), "more than one select on a response channel in a reply loop: shape not modelled")
+		// the primary select is the blocking one; non-blocking polls of the reply channel are further receive points
+		var blocking []*ssa.Select
+		for _, sl := range sels {
+			if sl.Blocking {
+				blocking = append(blocking, sl)
+			}
+		}
+		if len(blocking) != 1 {
+			l.Unknown(rule, fnKey(f)+"/select", f.Pos(), fmt.Sprintf("%d blocking selects on a response channel in a reply loop: shape not modelled", len(blocking)))
 			continue
 		}
-		rl := &replyLoop{fn: f, key: fnKey(f), sel: sels[0], qfCalls: qf, ctxState: -1}
+		rl := &replyLoop{fn: f, key: fnKey(f), sel: blocking[0], qfCalls: qf, ctxState: -1}
 		for i, st := range rl.sel.States {
 			if st.Dir != types.RecvOnly {
 				continue
@@ -183,6 +200,17 @@ func findReplyLoops(l *core.Ledger, r *rt, rule string) []*replyLoop {
 			l.Unknown(rule, rl.key+"/select", rl.sel.Pos(), "the received response value is unused")
 			continue
 		}
+		for _, sl := range sels {
+			for i, st := range sl.States {
+				if st.Dir == types.RecvOnly && isResponseChan(st.Chan.Type()) {
+					e, okE := selectCaseEdge(sl, i)
+					rv := selectRecvValue(sl, i)
+					if okE && rv != nil {
+						rl.recvs = append(rl.recvs, recvPoint{sl, e, rv})
+					}
+				}
+			}
+		}
 		rl.qfResults = qf[0].Call.Signature().Results().Len()
 		rl.correct = rl.qfResults == 3
 		if len(qf[0].Call.Args) == 2 {
@@ -193,11 +221,39 @@ func findReplyLoops(l *core.Ledger, r *rt, rule string) []*replyLoop {
 	return out
 }
 
-// isR matches "field <name> of the response received in this iteration".
+// isR matches "field <name> of the response received in this iteration"
+// (at any of the loop's receive points).
 func (rl *replyLoop) isR(field string) func(sx.Origin) bool {
 	return sx.IsFieldNamed(field, func(o sx.Origin) bool {
-		return o.Kind == sx.KExtract && o.V == rl.sel && o.Index == rl.rVal.(*ssa.Extract).Index
+		if o.Kind != sx.KExtract {
+			return false
+		}
+		for _, rp := range rl.recvs {
+			if o.V == ssa.Value(rp.sel) && o.Index == rp.rVal.(*ssa.Extract).Index {
+				return true
+			}
+		}
+		return false
 	})
+}
+
+// recvEdges returns the case edges of all receive points.
+func (rl *replyLoop) recvEdges() []sx.Edge {
+	var out []sx.Edge
+	for _, rp := range rl.recvs {
+		out = append(out, rp.edge)
+	}
+	return out
+}
+
+// isRecvSelect matches any select of the loop that receives a reply.
+func (rl *replyLoop) isRecvSelect(n sx.Node) bool {
+	for _, rp := range rl.recvs {
+		if n.Instr() == ssa.Instruction(rp.sel) {
+			return true
+		}
+	}
+	return false
 }
 
 // errTest returns the If instructions testing r.err != nil (normalised so
